@@ -235,6 +235,58 @@ theorem conc_limit_is_model_limit (s : Shedder) (now : Nat) (cpu : Int) :
     s.maxFlight now = Conc.capOf ⟨s.cpuThreshold, s.windowScale⟩ (s.maxPass now) (s.minRt now)
     ∧ s.limit now cpu = Conc.limC ⟨s.cpuThreshold, s.windowScale⟩ (s.maxPass now) (s.minRt now) cpu := ⟨rfl, rfl⟩
 
+/-- **The step machine refines to the sequential model.**  One goroutine running alone (no other goroutine, no
+clock tick) through the steps of `Allow` — every shared access at its own step — ends with exactly the verdict and
+the shared state of the sequential model's `Shedder.allow` (the model tied to the source and compared with the
+implementation on every operation), for every shedder state, time, checker verdict and CPU reading. -/
+theorem solo_allow_is_model_allow (s : Shedder) (now : Nat) (over : Bool) (cpu : Int) :
+    let r := Conc.solo (Conc.cfgOf s) { over := over, cpu := cpu, clear := false } 14
+      (Conc.ofShedder s now, Th.fresh (Conc.ofShedder s now))
+    r.1 = Conc.ofShedder (s.allow now over cpu).1 now
+    ∧ (r.2.pc = (if (s.allow now over cpu).2 = .overloaded then PC.shed else PC.stamp)) := by
+  intro r
+  have hl : limC (Conc.cfgOf s) (maxPassOf (s.passCounter.visible now)) (minRtOf (s.rtCounter.visible now)) cpu
+      = s.limit now cpu := rfl
+  have hlo : ∀ o : Bool, (s.afterGate now o).limit now cpu = s.limit now cpu := fun o => afterGate_limit s now o now cpu
+  have hl2 : ({ s with overloadTime := now } : Shedder).limit now cpu = s.limit now cpu := rfl
+  cases over
+  · by_cases hd : s.droppedRecently = true
+    · by_cases h0 : s.overloadTime = 0
+      · simp [r, Conc.solo, thStep, Th.fresh, Conc.ofShedder, hd, h0, Shedder.allow, Shedder.shouldDrop, Shedder.gate,
+          Shedder.stillHot, Shedder.allowWith, Shedder.afterGate, Shedder.afterStillHot]
+      · by_cases hw : now - s.overloadTime < coolOffNs
+        · by_cases ha : s.avgFlying > s.limit now cpu
+          · by_cases hf : (s.flying : Rat) > s.limit now cpu
+            · simp [r, Conc.solo, thStep, Th.fresh, Conc.ofShedder, hd, h0, hw, ha, hf, hl, limOf, Shedder.allow, Shedder.shouldDrop, Shedder.gate,
+                Shedder.stillHot, Shedder.allowWith, Shedder.afterGate, Shedder.afterStillHot, Shedder.highThru]
+            · simp [r, Conc.solo, thStep, Th.fresh, Conc.ofShedder, hd, h0, hw, ha, hf, hl, limOf, Shedder.allow, Shedder.shouldDrop, Shedder.gate,
+                Shedder.stillHot, Shedder.allowWith, Shedder.afterGate, Shedder.afterStillHot, Shedder.highThru]
+          · simp [r, Conc.solo, thStep, Th.fresh, Conc.ofShedder, hd, h0, hw, ha, hl, Shedder.allow, Shedder.shouldDrop, Shedder.gate,
+              Shedder.stillHot, Shedder.allowWith, Shedder.afterGate, Shedder.afterStillHot, Shedder.highThru]
+        · simp [r, Conc.solo, thStep, Th.fresh, Conc.ofShedder, hd, h0, hw, Shedder.allow, Shedder.shouldDrop, Shedder.gate,
+            Shedder.stillHot, Shedder.allowWith, Shedder.afterGate, Shedder.afterStillHot]
+    · have hd' : s.droppedRecently = false := by simpa using hd
+      simp [r, Conc.solo, thStep, Th.fresh, Conc.ofShedder, hd', Shedder.allow, Shedder.shouldDrop, Shedder.gate,
+        Shedder.stillHot, Shedder.allowWith, Shedder.afterGate, Shedder.afterStillHot]
+  · by_cases ha : s.avgFlying > s.limit now cpu
+    · by_cases hf : (s.flying : Rat) > s.limit now cpu
+      · simp [r, Conc.solo, thStep, Th.fresh, Conc.ofShedder, ha, hf, hl, hl2, limOf, Shedder.allow, Shedder.shouldDrop, Shedder.gate,
+          Shedder.allowWith, Shedder.afterGate, Shedder.systemOverloaded, Shedder.highThru]
+      · simp [r, Conc.solo, thStep, Th.fresh, Conc.ofShedder, ha, hf, hl, hl2, limOf, Shedder.allow, Shedder.shouldDrop, Shedder.gate,
+          Shedder.allowWith, Shedder.afterGate, Shedder.systemOverloaded, Shedder.highThru]
+    · simp [r, Conc.solo, thStep, Th.fresh, Conc.ofShedder, ha, hl, hl2, Shedder.allow, Shedder.shouldDrop, Shedder.gate,
+        Shedder.allowWith, Shedder.afterGate, Shedder.systemOverloaded, Shedder.highThru]
+
+
+/-- the same for `Pass` / `Fail`: alone, the steps of a resolution compute `Shedder.pass` / `Shedder.fail`. -/
+theorem solo_resolve_is_model_resolve (s : Shedder) (now start : Nat) (pass : Bool) :
+    (Conc.soloResolve (Conc.cfgOf s) { pass := pass } 6
+      (Conc.ofShedder s now, { Th.fresh (Conc.ofShedder s now) with pc := .inflight, start := start })).1
+      = Conc.ofShedder (if pass then s.pass now start else s.fail) now := by
+  cases pass <;>
+    simp [Conc.soloResolve, thStep, Th.fresh, Conc.ofShedder, Shedder.pass, Shedder.fail, Shedder.release]
+
+
 /-- **In-flight conservation under every schedule.**  With any number `n` of request goroutines running
 Allow / Pass / Fail concurrently (each shared access one atomic step, any interleaving with each other and with
 the clock), in every reachable state the `flying` counter equals the number of goroutines that have been
